@@ -37,7 +37,7 @@ VARIABLES decl,      \* the declared boundaries, strictly increasing (whole unit
           count,     \* d.Count
           sum,       \* d.Sum
           obs,       \* the values observed so far, in order
-          hist       \* bucket counts and sum after each observation (for replay)
+          hist       \* bucket counts, Count and Sum after each observation (for replay)
 vars == <<decl, pc, ranges, buckets, count, sum, obs, hist>>
 
 -----------------------------------------------------------------------------
@@ -116,7 +116,7 @@ Observe(v) ==
   /\ count' = count + 1          \* d.Count++
   /\ sum' = Add(sum, v)          \* d.Sum += v
   /\ obs' = Append(obs, v)
-  /\ hist' = Append(hist, [n |-> [k \in DOMAIN buckets' |-> buckets'[k].n], sum |-> sum'])
+  /\ hist' = Append(hist, [n |-> [k \in DOMAIN buckets' |-> buckets'[k].n], count |-> count', sum |-> sum'])
   /\ UNCHANGED <<decl, pc, ranges>>
 
 Next == Compile \/ \E v \in ValuesFor(decl) : Observe(v)
